@@ -345,8 +345,12 @@ func Run(root func(), c Config, s *Tape) Result {
 	case 1:
 		res.Strategy = "pct"
 		d := 1 + S.Draw(4)
+		// runs are a few hundred to a few thousand steps long: the span the
+		// change points are drawn from is itself a draw, so that short runs
+		// get change points too
+		span := []int{300, 1000, 3000, 10000}[S.Draw(4)]
 		for i := 0; i < d; i++ {
-			changePts = append(changePts, S.Draw(3000))
+			changePts = append(changePts, S.Draw(span))
 		}
 	case 2:
 		res.Strategy = "starve"
